@@ -200,6 +200,7 @@ def run_property(pid, tier='quick', seed=0, repo='/repo', explain=None, quiet=Fa
     if repo == '/repo':
         json.dump(ev, open(os.path.join(EVID, '%s.json' % pid), 'w'), indent=1, default=str)
     if not quiet:
+      try:
         print('%s [%s] %d obligations, %d discharged, %d new violation(s), %d known finding(s), %d functions, %.1fs'
               % (pid, tier, len(ctx.obligations), len(discharged), len(new),
                  len(ctx.violations) - len(new), len(ctx.functions), wall))
@@ -207,6 +208,13 @@ def run_property(pid, tier='quick', seed=0, repo='/repo', explain=None, quiet=Fa
             print('  cfg %s: %s' % (c, n))
         for l in out_lines:
             print(l)
+        sys.stdout.flush()
+      except BrokenPipeError:
+        # the reader closed the pipe (e.g. `| head`): the verdict is still the exit status
+        try:
+            sys.stdout = open(os.devnull, 'w')
+        except OSError:
+            pass
     return (1 if new else 0), ctx
 
 
